@@ -273,7 +273,7 @@ CHART_SHAPES = "charts: root {acc: node, bank: leaf}; a node has an optional fix
 CHECKS["C30"] = {
     "level": "other",
     "explanation": "Every chart of a bounded shape family is decoded by the real ChartOfAccounts/ChartSegment.UnmarshalJSON, marshalled by the real MarshalJSON methods and decoded again (also inside the SchemaData envelope), all through the JSON-tree model; then a symbolic address (1-3 segments, each an SMT string over the segment alphabet) is classified by the real findAccountSchema against both charts: same accept/reject verdict and same default metadata before and after the round trip. The decoders range over Go maps: for depth-1 charts every iteration order of each map of 2-3 entries is explored as a fork (first decode, second decode), since Go leaves the order unspecified.",
-    "bounds": {"quick": CHART_SHAPES + "; depth 1 (the node's children are leaves); addresses of <= 3 segments of <= 3 bytes; map orders: maps of <= 3 entries, addresses of <= 2 segments", "thorough": "depth 2 (children of the node may be nodes)"},
+    "bounds": {"quick": CHART_SHAPES + "; depth 1 (the node's children are leaves); addresses of <= 3 segments of <= 3 bytes; map orders: maps of <= 3 entries, addresses of <= 2 segments", "thorough": "depth 2 (children of the node may be nodes); map orders with addresses of <= 3 segments"},
     "outside": "transaction templates and query templates of a schema (compared under C37); the text layer of encoding/json and the jsonb column (the tree model assumes they preserve the tree); charts outside the family; strings.Split of the address (findAccountSchema is called with the segment list)",
     "assumptions": COMMON_ASSUME + ["encoding/json is modelled as a JSON tree (see C07)", "regexp patterns are translated to SMT-LIB regular expressions"],
     "units": [
@@ -281,6 +281,7 @@ CHECKS["C30"] = {
         unit("./internal", ["core/chart.go"], "^Harness_CHART_order1_", QT, flags={"labels": "^(C30:|no-panic)", "max-paths": 200000, "max-decisions": 2000}, reach=["end"]),
         unit("./internal", ["core/chart.go"], "^Harness_CHART_order2_", QT, flags={"labels": "^(C30:|no-panic)", "max-paths": 200000, "max-decisions": 2000}, reach=["end"]),
         unit("./internal", ["core/chart.go"], "^Harness_CHART_d2_", T, flags={"labels": "^(C30:|no-panic)", "max-paths": 2000000, "max-decisions": 3000}, reach=["end"], timeout_s=7000),
+        unit("./internal", ["core/chart.go"], "^Harness_CHART_orderT[12]_", T, flags={"labels": "^(C30:|no-panic)", "max-paths": 400000, "max-decisions": 2000}, reach=["end"], timeout_s=3000),
     ],
 }
 
